@@ -219,8 +219,10 @@ def main() -> int:
         params, pre, names = gen.signature(sh["holes"])
         argt = f"({', '.join(names)},)" if names else "()"
         for mode, mname in ((0, "min"), (1, "full"), (2, "outer")):
-            if mode == 2 and (quick and i % 4):
+            if mode == 2 and i % (4 if quick else 3):
                 continue
+            if mode == 1 and not quick and sh["k"] == 3 and i % 2:
+                continue        # thorough: the full-parentheses rendering of every second 3-operator skeleton
             items.append(Item(f"s{i}_{mname}", params, pre, f"check({i}, {mode}, {argt})",
                               describe={"skeleton": sh["skeleton"], "top": sh["top"], "rendering": mname},
                               family=f"k={sh['k']}:{mname}"))
